@@ -1090,3 +1090,245 @@ func (s *holdState) Copy() ssax.PState {
 	}
 	return &holdState{s.f.Clone(), h}
 }
+
+// selPath strips field selections, slicing and conversions off v and returns the value they are applied to and the
+// field names on the way (outermost first).
+func selPath(v ssa.Value) (ssa.Value, []string) {
+	var path []string
+	for i := 0; i < 16; i++ {
+		switch x := v.(type) {
+		case *ssa.Field:
+			f, _ := ssax.FieldName(x)
+			path = append([]string{f}, path...)
+			v = x.X
+		case *ssa.UnOp:
+			if x.Op != token.MUL {
+				return v, path
+			}
+			if _, ok := x.X.(*ssa.FieldAddr); !ok {
+				return v, path
+			}
+			v = x.X
+		case *ssa.FieldAddr:
+			f, _ := ssax.FieldName(x)
+			path = append([]string{f}, path...)
+			v = x.X
+		case *ssa.Slice:
+			v = x.X
+		case *ssa.Convert:
+			v = x.X
+		case *ssa.ChangeType:
+			v = x.X
+		case *ssa.MakeInterface:
+			v = x.X
+		default:
+			return v, path
+		}
+	}
+	return v, path
+}
+
+func pathsOverlap(a, b []string) bool {
+	for i := 0; i < len(a) && i < len(b); i++ {
+		if a[i] != b[i] {
+			return false
+		}
+	}
+	return true
+}
+
+func mayCarryRef(t types.Type, depth int) bool {
+	if depth > 4 {
+		return true
+	}
+	switch u := t.Underlying().(type) {
+	case *types.Slice, *types.Pointer, *types.Map, *types.Chan, *types.Interface, *types.Signature:
+		return true
+	case *types.Struct:
+		for i := 0; i < u.NumFields(); i++ {
+			if mayCarryRef(u.Field(i).Type(), depth+1) {
+				return true
+			}
+		}
+	case *types.Array:
+		return mayCarryRef(u.Elem(), depth+1)
+	}
+	return false
+}
+
+// checkNoReleaseAfterHandOff (R14.14): memory that was handed to another goroutine (sent on a channel, alone or inside
+// a struct, directly or through a converting call) is not put into an object pool afterwards by the sender: the
+// receiver still holds it, and the pool hands it to the next user - the receiver's data is overwritten with another
+// connection's value.
+func checkNoReleaseAfterHandOff(c *core.Ctx, rule string, wrappers map[*ssa.Function]int) {
+	n := 0
+	for _, fn := range c.P.RepoFuncs("") {
+		counts := map[string]int{}
+		var sends []*ssa.Send
+		ssax.Instrs(fn, func(ins ssa.Instruction) {
+			if s, ok := ins.(*ssa.Send); ok && mayCarryRef(s.X.Type(), 0) {
+				sends = append(sends, s)
+			}
+		})
+		ssax.Instrs(fn, func(ins ssa.Instruction) {
+			var v ssa.Value
+			switch x := ins.(type) {
+			case *ssa.Call:
+				v = releaseArg(x, wrappers)
+			case *ssa.Defer:
+				v = deferredReleaseArg(x, wrappers)
+			}
+			if v == nil {
+				return
+			}
+			n++
+			key := ordinalKey(counts, core.FuncName(fn)+"#released-not-handed-off")
+			if g := releasePool(ins, wrappers); g != nil && !poolIsDrawnFrom(c, g) {
+				c.OK(rule, key, c.P.Pos(ins.Pos()), "nothing is ever taken out of this pool")
+				return
+			}
+			root, path := selPath(v)
+			var bad []string
+			for _, s := range sends {
+				if _, isDefer := ins.(*ssa.Defer); !isDefer {
+					if hit, _ := (ssax.Reach{Target: func(i ssa.Instruction) bool { return i == ins }}).From(s); hit == nil {
+						continue
+					}
+				}
+				// what the sent value may be made of
+				seen := map[ssa.Value]bool{}
+				var walk func(x ssa.Value, d int) bool
+				walk = func(x ssa.Value, d int) bool {
+					if x == nil || seen[x] || d > 8 {
+						return false
+					}
+					seen[x] = true
+					r, p := selPath(x)
+					if r == root && pathsOverlap(p, path) {
+						return true
+					}
+					switch y := r.(type) {
+					case *ssa.Call:
+						for i, a := range y.Call.Args {
+							if mayCarryRef(a.Type(), 0) && resultMayHold(y.Call.StaticCallee(), i) && walk(a, d+1) {
+								return true
+							}
+						}
+					case *ssa.Extract:
+						return walk(y.Tuple, d+1)
+					case *ssa.Phi:
+						for _, e := range y.Edges {
+							if walk(e, d+1) {
+								return true
+							}
+						}
+					case *ssa.UnOp:
+						if y.Op == token.MUL {
+							if al, ok := y.X.(*ssa.Alloc); ok && al.Referrers() != nil {
+								for _, ref := range *al.Referrers() {
+									switch st := ref.(type) {
+									case *ssa.Store:
+										if st.Addr == ssa.Value(al) && walk(st.Val, d+1) {
+											return true
+										}
+									}
+								}
+								// a struct built field by field in a local
+								for _, ref := range *al.Referrers() {
+									if fa, ok := ref.(*ssa.FieldAddr); ok && fa.Referrers() != nil {
+										for _, r2 := range *fa.Referrers() {
+											if st, ok := r2.(*ssa.Store); ok && st.Addr == ssa.Value(fa) && walk(st.Val, d+1) {
+												return true
+											}
+										}
+									}
+								}
+							}
+						}
+					}
+					return false
+				}
+				if walk(s.X, 0) {
+					bad = append(bad, fmt.Sprintf("the memory released at %s was sent on a channel at %s: the receiver still holds it when the pool hands it to its next user", c.P.Pos(ins.Pos()), c.P.Pos(s.Pos())))
+				}
+			}
+			c.Check(len(bad) == 0, rule, key, c.P.Pos(ins.Pos()), "what is released was not handed to another goroutine before", strings.Join(uniq(bad), "; "))
+		})
+	}
+	if n == 0 {
+		c.Undecided(rule, "pools#released-not-handed-off", "-", "no pool release found")
+	}
+}
+
+// resultMayHold: may a result of callee be (or contain) memory reachable from its idx-th argument? Decided from the
+// callee's body (provenance of its returned values); unknown callees are assumed to hand their arguments on.
+func resultMayHold(callee *ssa.Function, idx int) bool {
+	if callee == nil || len(callee.Blocks) == 0 || idx >= len(callee.Params) {
+		return true
+	}
+	pv := &ssax.Prov{}
+	for _, r := range ssax.Returns(callee) {
+		for _, res := range r.Results {
+			if !mayCarryRef(res.Type(), 0) {
+				continue
+			}
+			for _, s := range pv.Sources(res) {
+				if s.Kind == "param" && s.V == ssa.Value(callee.Params[idx]) {
+					return true
+				}
+				if s.Kind == "call" || s.Kind == "other" {
+					return true
+				}
+			}
+			// struct results: look at the fields too
+			if st, ok := res.Type().Underlying().(*types.Struct); ok {
+				for i := 0; i < st.NumFields(); i++ {
+					if !mayCarryRef(st.Field(i).Type(), 0) {
+						continue
+					}
+					for _, s := range pv.Sources(res, st.Field(i).Name()) {
+						if (s.Kind == "param" && s.V == ssa.Value(callee.Params[idx])) || s.Kind == "call" || s.Kind == "other" {
+							return true
+						}
+					}
+				}
+			}
+		}
+	}
+	return false
+}
+
+// releasePool names the package-level pool a release instruction puts into (through a wrapper if need be).
+func releasePool(ins ssa.Instruction, wrappers map[*ssa.Function]int) *ssa.Global {
+	cc := ssax.CallOf(ins)
+	if cc == nil {
+		return nil
+	}
+	if ssax.CalleeName(cc) == "(*sync.Pool).Put" {
+		return globalOf(cc.Args[0])
+	}
+	if f := cc.StaticCallee(); f != nil {
+		if _, ok := wrappers[f]; ok {
+			var g *ssa.Global
+			ssax.Instrs(f, func(i ssa.Instruction) {
+				if c2 := ssax.CallOf(i); c2 != nil && ssax.CalleeName(c2) == "(*sync.Pool).Put" {
+					g = globalOf(c2.Args[0])
+				}
+			})
+			return g
+		}
+	}
+	return nil
+}
+
+func poolIsDrawnFrom(c *core.Ctx, g *ssa.Global) bool {
+	found := false
+	for _, fn := range c.P.RepoFuncs("") {
+		ssax.Instrs(fn, func(i ssa.Instruction) {
+			if cc := ssax.CallOf(i); cc != nil && ssax.CalleeName(cc) == "(*sync.Pool).Get" && globalOf(cc.Args[0]) == g {
+				found = true
+			}
+		})
+	}
+	return found
+}
